@@ -252,6 +252,25 @@ def dec_promised(n):
     return ((n + 1) * 6) // 8
 
 
+_SWEEP = {}
+
+
+def sweep3_crc(a0):
+    """CRC-32 of the RFC 4648 encodings (Python's base64 module) of all 65536 strings a0,b,c in order;
+    a multiple of three bytes encodes without padding, so the concatenation of the encodings is the
+    encoding of the concatenation"""
+    if a0 not in _SWEEP:
+        if "base" not in _SWEEP:
+            base = bytearray(3 * 65536)
+            base[1::3] = bytes(b for b in range(256) for _ in range(256))
+            base[2::3] = bytes(range(256)) * 256
+            _SWEEP["base"] = base
+        buf = bytearray(_SWEEP["base"])
+        buf[0::3] = bytes([a0]) * 65536
+        _SWEEP[a0] = zlib.crc32(base64.b64encode(bytes(buf))) & 0xffffffff
+    return _SWEEP[a0]
+
+
 def check_dec_answer(inp_chunks, ans):
     """one implementation's answer to a decode case"""
     w = ans.split()
@@ -297,9 +316,7 @@ def oracle(case, out):
                 elif op == "b64.dec":
                     v = check_dec_answer(chunks_of(a[1], unhx(a[2])), ans)
                 elif op == "b64.isweep3":
-                    a0 = int(a[1])
-                    allb = b"".join(bytes([a0, b, c]) for b in range(256) for c in range(256))
-                    exp = "n=65536 rtfail=0 rawdiff=0 lenbad=0 crc=%d" % (zlib.crc32(base64.b64encode(allb)) & 0xffffffff)
+                    exp = "n=65536 rtfail=0 rawdiff=0 lenbad=0 crc=%d" % sweep3_crc(int(a[1]))
                     if ans != exp:
                         v = ("oracle:sweep3", "exhaustive 3-byte sweep: expected `%s`" % exp)
                 if v:
